@@ -25,8 +25,8 @@ def lean_char(ch):
         return "'\\n'"
     if ch == '\t':
         return "'\\t'"
-    if o < 32 or o > 126:
-        return "'\\u{%x}'" % o
+    if o < 32 or o == 127:
+        return '(Char.ofNat %d)' % o
     return "'%s'" % ch
 
 
